@@ -385,11 +385,25 @@ def run_property(prop, tier, seed):
             continue
         hit = None
         rnd = random.Random(seed * 7919 + len(probed))
-        for attempt in range(int(os.environ.get("VERIF_PROBES", "12"))):
-            nat = native_replay(fn, ob["name"], {"model": {"__random__": rnd.randrange(1 << 30)}, "choices": []},
+        target = ob["name"]
+        for attempt in range(int(os.environ.get("VERIF_PROBES", "12")) * (3 if target.endswith("/*") else 1)):
+            nat = native_replay(fn, target, {"model": {"__random__": rnd.randrange(1 << 30)}, "choices": []},
                                 prop.CONTRACT_MODULES, repo)
+            if nat.get("reproduced") is None and not target.endswith("/*") and nat.get("pre_holds_natively") is not None \
+                    and not nat.get("raised"):
+                # the undecided obligation has no native counterpart (a loop lemma, a call-site obligation): probe the
+                # function's natively evaluable post-conditions instead (silent on the unchanged tree: tools/probe_all.py)
+                target = fn + "/*"
+                continue
             if nat.get("reproduced") is True and nat.get("pre_holds_natively"):
-                hit = (dict(ob, model=nat.get("inputs"), native=nat, backend="native-probe"), fn)
+                if target.endswith("/*"):
+                    cl_tags = clause_tags(prop, fn, nat.get("failed_clause") or "")
+                    if not (cl_tags is None or not cl_tags or any(t in cl_tags for t in tags) or fn in closure_fns):
+                        continue
+                    hit = ({"name": "%s/%s" % (fn, nat.get("failed_clause")), "kind": "post", "status": "refuted",
+                            "backend": "native-probe", "secs": 0, "model": nat.get("inputs"), "native": nat}, fn)
+                else:
+                    hit = (dict(ob, model=nat.get("inputs"), native=nat, backend="native-probe"), fn)
                 break
         probed[ob["name"]] = hit
         if hit:
@@ -449,10 +463,15 @@ def run_property(prop, tier, seed):
                     rnd = random.Random(seed * 7919 + len(names_done))
                     tries += [{"model": {"__random__": rnd.randrange(1 << 30)}, "choices": []}
                               for _ in range(int(os.environ.get("VERIF_PROBES", "12")))]
+                    target = ob["name"]
                     for t in tries:
-                        nat = native_replay(r["function"], ob["name"], t, prop.CONTRACT_MODULES, repo, edits=edits_)
+                        nat = native_replay(r["function"], target, t, prop.CONTRACT_MODULES, repo, edits=edits_)
+                        if nat.get("reproduced") is None and not target.endswith("/*") and not nat.get("raised"):
+                            target = r["function"] + "/*"      # no native counterpart: probe the native post-conditions
+                            continue
                         if nat.get("reproduced") is True and nat.get("pre_holds_natively"):
-                            hit.append(ob["name"] + " (reproduced on the real code from a %s)" % (
+                            hit.append((ob["name"] if not target.endswith("/*") else "%s/%s" % (r["function"], nat.get("failed_clause")))
+                                       + " (reproduced on the real code from a %s)" % (
                                 "candidate model" if t is ob else "pseudo-random probe"))
                             break
         bad = [r for r in rs if r["status"] != "ok"]
